@@ -75,9 +75,12 @@ func ctx(m *mw.Model, x string) string {
 		p = append(p, "own-expired")
 	}
 	if par, hdr := m.ParentOf(x); par != "" {
-		how := "chain"
+		how := "first-part"
 		if hdr {
 			how = "header"
+			if mw.ByName[x].Parent == "" {
+				how = "chain-ref" // bound by first-part ID / split ID, parent revealed by a sibling
+			}
 		}
 		p = append(p, fmt.Sprintf("parent(%s)=%s", how, m.Status(par, false)))
 	}
@@ -344,7 +347,7 @@ func oracle(s *mw.Sys) (string, string) {
 
 func main() {
 	r := ev.Start("C01", ev.ModelChecking)
-	if r.Quick() && r.Budget > 70*time.Second {
+	if r.Quick() && r.Budget == 90*time.Second { // the default; an explicit -budget is respected
 		r.Budget = 70 * time.Second // leave room for the build inside the 90 s quick-tier envelope
 	}
 	scratch := mw.MkScratch("verif-c01")
@@ -358,9 +361,22 @@ func main() {
 		"MarkGarbage(R1)", "MarkGarbage(L1)", "MarkGarbage(P)", "MarkGarbage(E)", "MarkRedundant(R1)",
 		"Delete(T1)", "Delete(C2)", "Revive(R1)", "Revive(C2)", "Revive(P)", "InhumeContainer(cA)"}
 	status := append(mw.OpsByName(statusNames...), mw.MacroOps()...)
-	fullDepth, statusDepth := 2, 3
+	// chain-shape alphabet: a v2 chain with three middle parts (no parent header, IDs before /
+	// between / after the last part and the link) and a v1 chain with two non-last parts (IDs before /
+	// after the last part), every subset and put order, parent expiry, tombstone or mark on the parent
+	chain := append(mw.ChainAlphabet(), mw.ChainMacroOps()...)
+	fullDepth, statusDepth, chainDepth := 2, 3, 3
 	if r.Thorough() {
-		fullDepth, statusDepth = 3, 4
+		fullDepth, statusDepth, chainDepth = 3, 4, 4
+	}
+	// replays resolve names over the union of the alphabets
+	var all []mw.Op
+	seenOp := map[string]bool{}
+	for _, o := range append(append(append([]mw.Op{}, full...), status...), chain...) {
+		if !seenOp[o.String()] {
+			seenOp[o.String()] = true
+			all = append(all, o)
+		}
 	}
 	mk := func(ops []mw.Op, depth int) seqx.Config {
 		return seqx.Config{NumOps: len(ops), MaxDepth: depth, CheckInit: true,
@@ -371,7 +387,7 @@ func main() {
 	if r.Replay != "" {
 		var rp struct{ Ops []string }
 		r.LoadReplay(&rp)
-		fp, what, err := seqx.Replay(mk(full, 0), rp.Ops)
+		fp, what, err := seqx.Replay(mk(all, 0), rp.Ops)
 		if err != nil {
 			os.RemoveAll(scratch)
 			r.Fatal("%v", err)
@@ -384,7 +400,10 @@ func main() {
 	}
 
 	res := seqx.Run(r, mk(full, fullDepth))
-	var res2 seqx.Result
+	var res2, res3 seqx.Result
+	if !r.Expired() {
+		res3 = seqx.Run(r, mk(chain, chainDepth))
+	}
 	if !r.Expired() {
 		res2 = seqx.Run(r, mk(status, statusDepth))
 	}
@@ -398,14 +417,14 @@ func main() {
 			fmt.Printf("DBG %s\n      %s\n", k, dbgFails[k])
 		}
 	}
-	r.Exhaustive(res.Exhaustive && res2.Exhaustive)
-	r.Set("depth_completed", fmt.Sprintf("full alphabet: %d, status alphabet: %d", res.DepthCompleted, res2.DepthCompleted))
+	r.Exhaustive(res.Exhaustive && res2.Exhaustive && res3.Exhaustive)
+	r.Set("depth_completed", fmt.Sprintf("full alphabet: %d, chain alphabet: %d, status alphabet: %d", res.DepthCompleted, res3.DepthCompleted, res2.DepthCompleted))
 	r.Set("outcome_classes", len(outcomes))
-	r.Set("alphabet_size", fmt.Sprintf("full %d (incl. %d macros), status %d", len(full), len(mw.MacroOps()), len(status)))
+	r.Set("alphabet_size", fmt.Sprintf("full %d (incl. %d macros), chain %d (incl. %d macros), status %d", len(full), len(mw.MacroOps()), len(chain), len(mw.ChainMacroOps()), len(status)))
 	r.Set("universe_addresses", len(mw.Specs))
-	r.Rule(fmt.Sprintf("two BFS runs with state dedup from the empty metabase: (1) all sequences of <= %d letters over the full alphabet = %d elementary operations (Put of every physical universe member, Epoch+1, MarkGarbage default/redundant, Delete, Revive, InhumeContainer, DeleteContainer on hand-picked targets) + %d scripted prefixes (macros, enabled in the initial state only) that seed dense situations; (2) all sequences of <= %d letters over a reduced %d-letter status alphabet (locks incl. two locks on one object, marks on objects and on a lock, tombstones, revivals, epoch ticks, split chain, EC and two-level families, container removal, same prefixes); state key = raw bbolt dump + epoch + reference model; a case is non-trivial when it reaches a state not seen before; after every transition all %d addresses are queried through every view (depths completed: %d and %d)", fullDepth, len(mw.FullAlphabet()), len(mw.MacroOps()), statusDepth, len(status), len(mw.Specs), res.DepthCompleted, res2.DepthCompleted))
+	r.Rule(fmt.Sprintf("three BFS runs with state dedup from the empty metabase: (1) all sequences of <= %d letters over the main alphabet = %d elementary operations (Put of every physical member of the main universe, Epoch+1, MarkGarbage default/redundant, Delete, Revive, InhumeContainer, DeleteContainer on hand-picked targets) + %d scripted prefixes (macros, enabled in the initial state only) that seed dense situations; (2) all sequences of <= %d letters over the %d-letter chain-shape alphabet: a v2 split chain with first part, three middle parts without parent header whose IDs sort before / between / after the last part and the link, last part and link, and a v1 chain with two non-last parts sorting before / after the last part -- every subset and order of puts (so the ID order among the stored siblings is explored), expiry of the parent, tombstone or garbage mark on the parent, revival and deletion of parts, plus 3 chain prefixes; (3) all sequences of <= %d letters over a reduced %d-letter status alphabet (locks incl. two locks on one object, marks on objects and on a lock, tombstones, revivals, epoch ticks, split chain, EC and two-level families, container removal, same prefixes); state key = raw bbolt dump + epoch + reference model; a case is non-trivial when it reaches a state not seen before; after every transition all %d addresses are queried through every view (depths completed: %d, %d and %d)", fullDepth, len(mw.FullAlphabet()), len(mw.MacroOps()), chainDepth, len(chain), statusDepth, len(status), len(mw.Specs), res.DepthCompleted, res3.DepthCompleted, res2.DepthCompleted))
 	r.Assume("single-threaded histories on one metabase; acceptance of each operation is taken from the implementation's return value",
-		"where the property text is silent (precedence between several removal reasons, tombstone vs live lock, garbage mark requested for an address that is not stored, first split part without parent header, redundant marks in listing, Exists(ignoreExpiration) with an expired lock) any of the plausible answers is accepted")
+		"where the property text is silent (precedence between several removal reasons, tombstone vs live lock, garbage mark requested for an address that is not stored, first part of a v2 split chain (it carries neither a parent header nor a chain reference), redundant marks in listing, Exists(ignoreExpiration) with an expired lock) any of the plausible answers is accepted")
 	os.RemoveAll(scratch)
 	r.Finish()
 }
